@@ -71,7 +71,8 @@ def check_C13(tier):
     chk = Check("C13", tier)
     chk.rule = ("Paths.tla enumerates every path of the grammar {abs?} x (<= MaxSegs segments from {a, b, .., ., a.., ..a, ..., __parent__, __parent__a, __fsroot__}) x "
                 "{f, __parent__f, f..}; TLC checks transcription = property except on the exported class F9; every case (quick: seeded sample) is replayed as a "
-                "one-task workflow (output at the case path, input at another case path, two extra files), verdict = real location vs normpath(cwd/path); "
+                "one-task workflow (output at the case path, input at another case path, six extra files), verdict = real location vs normpath(cwd/path); "
+                "plus random long paths over [0-9A-Za-z._-] (segments up to 120 chars, depth up to 8, ./ ../ prefixes and inner ./ ../, absolute); "
                 "non-trivial = distinct cases whose temp path differs from the declared path or that have >= 1 directory segment")
     chk.assumptions = ["destination directory pre-created for absolute and ..-relative outputs (stated precondition)", "extra files with placeholder-like names are outside the stated quantifier"]
     thorough = tier == "thorough"
@@ -89,6 +90,23 @@ def check_C13(tier):
     pick += rng.sample(f9, min(len(f9), 12))
     inputs = [c for c in cases if not c["f9"]]
     jobs = [(c, rng.choice(inputs)) for c in pick]
+    # beyond the grammar: random long paths over the whole allowed alphabet (long names, deep nesting, ./ and ../ prefixes, absolute);
+    # segments ending in ".." are left to the grammar (class F9)
+    def rand_path():
+        alpha = "0123456789ABCDEFGHIJKLMNOPQRSTUVWXYZabcdefghijklmnopqrstuvwxyz._-"
+        def seg():
+            while True:
+                g = "".join(rng.choice(alpha) for _ in range(rng.choice([1, 2, 3, 8, 40, 120])))
+                if g not in (".", "..") and not g.endswith("..") and not g.startswith("-") and "__parent__" not in g and "__fsroot__" not in g: return g
+        segs = [seg() for _ in range(rng.choice([0, 1, 2, 4, 7]))]
+        pre = rng.choice(["", "", "./", "../", "../../", "./../", "/", "/"])
+        mid = rng.choice(["", "", "", "./", "../"]) if segs else ""
+        if mid and len(segs) >= 2: segs.insert(rng.randrange(1, len(segs)), mid.rstrip("/"))
+        path = pre + "/".join(segs + [seg()])
+        needs = path.startswith("/") or ".." in path.split("/")
+        return dict(path=path, needsdest=needs, f9=False, temppath="?", random=True)
+    rjobs = [(rand_path(), rand_path()) for _ in range(300 if thorough else 50)]
+    jobs += rjobs
     def one(j):
         try:
             return j, run_case(j[0], j[1], driver)
@@ -111,6 +129,6 @@ def check_C13(tier):
             chk.known_finding("F9", "a not-yet-existing directory segment ending in '..' (character-level '../' replacement), e.g. %r" % c["path"])
         else:
             chk.violation(msg, dict(case=c, input_case=ic))
-    chk.sample(dict(kind="path-cases", exported_by_tlc=len(cases), replayed=len(jobs), f9_class=len(f9), examples=[c["path"] for c in pick[:12]]))
+    chk.sample(dict(kind="path-cases", exported_by_tlc=len(cases), replayed=len(jobs), random_long_paths=len(rjobs), f9_class=len(f9), examples=[c["path"] for c in pick[:12]]))
     chk.extra["exhaustive"] = bool(thorough and len(pick) >= len(cases))
     return chk.finish()
